@@ -456,6 +456,10 @@ def run_spec(spec):
     return ob, info
 
 
+class OutsideModel(Exception):
+    pass
+
+
 def base_info(base_objs):
     if not base_objs:
         return {"mro": [], "table": [], "frozen": False, "exc": False, "attrs": []}
@@ -484,7 +488,9 @@ def base_info(base_objs):
     fz_attrs = probe.__setattr__ is _frozen_setattrs
     fz_define = any(bc.__setattr__ is _frozen_setattrs for bc in base_objs)
     if fz_attrs != fz_define:
-        raise vlib.Infra("C15 harness: base combination outside the modelled space (frozen-base tests differ)")
+        # e.g. (hook-running attrs base, frozen base): define's scan of __bases__ and attrs()'s MRO lookup of
+        # __setattr__ answer differently; the model has ONE "frozen by inheritance" bit (C05/C06 model both)
+        raise OutsideModel("frozen-base tests differ")
     return {"mro": [ids[k] for k in mro], "table": table, "frozen": fz_attrs,
             "exc": issubclass(probe, BaseException), "attrs": flat}
 
@@ -616,7 +622,10 @@ def nontrivial(spec, ob):
 
 
 def mk_cases(spec, only=None):
-    ob, info = run_spec(spec)
+    try:
+        ob, info = run_spec(spec)
+    except OutsideModel:
+        return []
     sp = enc_spec(spec, info)
     seen = {k: v for k, v in ob.items()}
     out = []
@@ -978,6 +987,34 @@ def fam_empty_hooks(tier, rng):
                             yield annotate(with_api(api, kw, [f], bases=bs, own=own), api in ("define", "frozen"))
 
 
+def fam_multi_bases(tier, rng):
+    """Several bases: a frozen attrs base in first / second position (dict or slotted, attr.s or define, or
+    frozen through an undecorated subclass) next to a plain mixin or another attrs base.  Frozen-ness is
+    inherited through the MRO whatever the position, so nothing here is contradictory unless hooks are asked for."""
+    frozen_bases = ["Fz", "Fz0", "FzD", "FzSub"]
+    others = ["P", "M", "D", "V"]
+    pairs = []
+    for fb in frozen_bases:
+        for ob in others:
+            pairs += [(fb, ob), (ob, fb)]
+    pairs += [("P", "M"), ("D", "P"), ("Fz", "FzD"), ("FzD", "Fz0")]
+    if tier == "quick":
+        pairs = [pr for pr in pairs if pr[0] in ("Fz", "FzD", "P", "D") and pr[1] in ("Fz", "FzD", "Fz0", "P", "M")]
+    for api in APIS:
+        for bs in pairs:
+            for co in (None, "NO_OP", "validate", "empty_list"):
+                for val in (False, True):
+                    for sl in ((None,) if tier == "quick" and co not in (None,) else (None, True, False)):
+                        kw = {}
+                        if co is not None:
+                            kw["on_setattr"] = co
+                        if sl is not None:
+                            kw["slots"] = sl
+                        # a mandatory inherited field (M) needs no own default; own field defaulted after D/Fz
+                        f = mkfield("y", default="value", val=val)
+                        yield annotate(with_api(api, kw, [f], bases=bs), api in ("define", "frozen"))
+
+
 def random_spec(rng):
     api = rng.choice(APIS)
     is_def = api in ("define", "frozen")
@@ -1017,7 +1054,9 @@ def random_spec(rng):
         bases = (rng.choice(["M", "D", "Dk", "Di", "MD", "Mx", "Dx", "Fz", "Fz0", "FzD", "FzSub", "H", "Hn",
                              "Hc", "Hc", "He", "Hce", "Dv", "DvS", "Al", "V", "Sl", "SlD", "P", "Ps", "Exc", "ExcA"]),)
     else:
-        bases = tuple(rng.sample(["M", "D", "Dk", "H", "P", "V", "Al", "Hn"], 2))
+        bases = tuple(rng.sample(["M", "D", "Dk", "H", "P", "V", "Al", "Hn", "Fz", "Fz0", "FzD", "FzSub", "P", "Fz"], 2))
+        if len(set(bases)) < 2:
+            bases = bases[:1]
     if api == "make_class" and own and any(k in ("Exc", "ExcA") for k in bases):
         own = []
     style = rng.choice(["annot", "annot", "plainib", "mixed"]) if (is_def or aa) else rng.choice(["plainib", "plainib", "mixed"])
@@ -1133,7 +1172,7 @@ def from_initgen(rng, n):
 FAMILIES = [("order", fam_order), ("field", fam_field_rules), ("cls_eq_order", fam_cls_eq_order),
             ("annotations", fam_annotations), ("hash", fam_hash), ("setattr", fam_setattr),
             ("str", fam_str), ("alias", fam_alias), ("late", fam_late),
-            ("empty_hooks", fam_empty_hooks)]
+            ("empty_hooks", fam_empty_hooks), ("multi_bases", fam_multi_bases)]
 
 
 def gen_specs(tier, seed):
@@ -1176,7 +1215,10 @@ def generate(tier, seed):
 
 
 def rerun(inp):
-    return mk_cases(inp["spec"], only=inp.get("mode", "model"))[0]
+    cs = mk_cases(inp["spec"], only=inp.get("mode", "model"))
+    if not cs:
+        raise vlib.Infra("C15 replay: the base combination of this input is outside the modelled space")
+    return cs[0]
 
 
 def extra(tier, seed):
